@@ -129,6 +129,7 @@ func childMain(specPath, resPath string) {
 		return
 	}
 	scratch := filepath.Dir(specPath)
+	startHeartbeat()
 	feats := map[string]bool{}
 	reps := 1
 	for rep := 0; rep < reps; rep++ {
@@ -219,10 +220,10 @@ func runCase(c *Case) *Result {
 	var werr error
 	select {
 	case werr = <-done:
-	case <-time.After(240 * time.Second):
+	case <-time.After(600 * time.Second):
 		_ = cmd.Process.Kill()
 		<-done
-		panic("C17 child exceeded 240 s (infrastructure problem): " + tailStr(stderr.String(), 2000))
+		panic("C17 child exceeded 600 s (infrastructure problem): " + tailStr(stderr.String(), 2000))
 	}
 	if rb, err := os.ReadFile(resf); err == nil {
 		var res Result
